@@ -238,8 +238,9 @@ def run(chk, tier, seed, replay):
                           tags=tags)
             continue
         # verbatim hand-over: the argument tokens appear unchanged, in order, in the write! call
+        # (token for token, not space for space: a re-emitted `=` loses its Joint spacing in the printed form)
         norm = obs_norm(c["_text"] + ", sentinel")
-        if norm not in body:
+        if norm not in body and "".join(norm.split()) not in "".join(body.split()):
             chk.deviation(key, "arguments are not handed to format_args! token for token",
                           case={"item": item}, expected=norm, observed=body[:500], tags={"kind": "verbatim"})
     chk.cov["traces_validated_against_impl"] += len(meta)
